@@ -1357,3 +1357,133 @@ spec('C15', correspond=c15_correspond, replay=generic_replay, modules=['C15'],
      search=lambda run, rng, d: c15_correspond(run, random.Random(rng.random()), 'quick')['oracle_failures'],
      trusted=['the evaluator model is tied to eval/mod.rs and globals/mod.rs by differential execution', 'HashMap as a finite map', 'the correspondence check'],
      assumptions=['define_module replaces an existing module of the same name (observation: loading the same source name twice drops the first load\'s definitions)'])
+
+
+# ================================================================================================ C11
+
+from gen import reader_ref
+
+READ_ALPHABET = ['(', ')', "'", '"', '%', '\\', ';', ',', ' ', '\n', 'a', '1', '+', '-']
+
+def c11_strings(rng, tier):
+    L = 4 if tier == 'quick' else 5
+    out = ['']
+    for n in range(1, L + 1):
+        out += [''.join(t) for t in itertools.product(READ_ALPHABET, repeat=n)]
+    exhaustive = len(out)
+    # token-level generator: valid forms, then mutated by insert / delete / duplicate of one character
+    def form(d):
+        k = rng.random()
+        if d > 3 or k < 0.5:
+            return rng.choice(['a', 'foo', '12', '-7', '+', '%a', '%\\n', '%(', '"s"', '"a\\"b"', '"x\\\\y"', 'λ', '%λ', '9223372036854775807', '-9223372036854775808', '()', '"a\nb"', 'a-b', '+x'])
+        if k < 0.65:
+            return "'" + form(d + 1)
+        return '(' + rng.choice([' ', '', '\n', ' ; c\n', ', ']).join(form(d + 1) for _ in range(rng.randint(0, 4))) + ')'
+    for _ in range(5000 if tier == 'quick' else 100000):
+        s = ' '.join(form(0) for _ in range(rng.randint(1, 3)))
+        if rng.random() < 0.5 and s:
+            i = rng.randrange(len(s))
+            k = rng.random()
+            if k < 0.34: s = s[:i] + rng.choice(READ_ALPHABET + [' ', ' ', '\t']) + s[i:]
+            elif k < 0.67: s = s[:i] + s[i + 1:]
+            else: s = s[:i] + s[i] + s[i:]
+        out.append(s)
+    return out, exhaustive
+
+def c11_check_one(text, line, col, resp):
+    """compare one real `read` response (dump of the result plist) with the reference reader; returns a problem or None"""
+    ref = reader_ref.read_ref(text, line, col)
+    if not resp.startswith('ok:'):
+        return f'read raised a signal or died: {resp[:200]}', ref
+    try:
+        pl = reader_ref.parse_dump(resp[3:])
+        items = reader_ref.to_list(pl)
+        d = {items[i][1]: items[i + 1] for i in range(0, len(items) - 1, 2)}
+    except Exception as e:
+        return f'unparseable answer {resp[:200]} ({e})', ref
+    status = d.get('status', ('?', '?'))[1]
+    if status != ref['status']:
+        return f'status {status}, the grammar says {ref["status"]}', ref
+    if status == 'ok':
+        if not reader_ref.same_datum(ref['datum'], d['result']):
+            return f'datum or atom positions differ from the grammar\'s: {resp[:300]}', ref
+        rest = reader_ref.to_list(d['rest'])
+        rest_text = ''.join(x[1] for x in rest) if rest is not None else None
+        if rest_text != text[ref['rest']:]:
+            return f'rest is {rest_text!r}, expected {text[ref["rest"]:]!r} (the remaining text unchanged)', ref
+        if (d['line'][1], d['column'][1]) != (ref['line'], ref['col']):
+            return f'rest position {(d["line"][1], d["column"][1])}, expected {(ref["line"], ref["col"])}', ref
+    if status == 'error':
+        try:
+            e = {x[1]: y for x, y in zip(reader_ref.to_list(d['error'])[0::2], reader_ref.to_list(d['error'])[1::2])}
+            l = {x[1]: y for x, y in zip(reader_ref.to_list(e['location'])[0::2], reader_ref.to_list(e['location'])[1::2])}
+            if (l['line'][1], l['column'][1]) != ref['pos']:
+                return f'error position {(l["line"][1], l["column"][1])}, expected {ref["pos"]}', ref
+        except Exception as ex:
+            return f'malformed error result ({ex})', ref
+    return None, ref
+
+def c11_correspond(run, rng, tier):
+    strings, exhaustive = c11_strings(rng, tier)
+    starts = [(1, 1)] * len(strings)
+    for i in range(exhaustive, len(strings)):
+        if rng.random() < 0.3:
+            starts[i] = (rng.randint(1, 50), rng.randint(1, 80))
+    per = 4000
+    sessions = []
+    for i in range(0, len(strings), per):
+        sessions.append(['new empty'] + [f'read {hexs(s)} stdin {l} {c}' for s, (l, c) in zip(strings[i:i + per], starts[i:i + per])])
+    # successive reads of multi-form texts, every form: the REPL/load-all way (rest, line, column fed back) is `eval` of the text,
+    # whose metadata positions must be the positions in the whole text
+    real, model = both(sessions)
+    diffs = compare(sessions, real, model)
+    failures, findings_seen = [], set()
+    dist = {'ok': 0, 'nothing': 0, 'incomplete': 0, 'error': 0}
+    k = 0
+    for sess, r in zip(sessions, real):
+        for req, resp in zip(sess[1:], r[1:]):
+            text = strings[k]
+            l, c = starts[k]
+            k += 1
+            problem, ref = c11_check_one(text, l, c, resp)
+            dist[ref['status']] += 1
+            if problem:
+                f = {'text': text, 'start': [l, c], 'problem': problem, 'expression': f'(read "{text}" \'stdin {l} {c})  ; text given raw, not escaped'}
+                if ref.get('quirk'):
+                    f['finding'] = 'F5-reader-quote-flag'
+                    findings_seen.add('F5-reader-quote-flag')
+                elif problem.startswith('error position') and ref.get('msg', '').startswith("'\n' is not a valid escape"):
+                    f['finding'] = 'F25-error-position-of-newline'
+                    findings_seen.add('F25-error-position-of-newline')
+                failures.append(f)
+    # whitespace table of the model against char::is_whitespace, for every scalar value
+    ws_real, _ = lib.run_driver(real_cmd(), ['whitespace'], 120)
+    ws_model, _ = lib.run_driver(model_cmd(), ['whitespace'], 120, True)
+    if ws_real != ws_model:
+        diffs.append({'session': 'whitespace-table', 'request': 'whitespace', 'real': str(ws_real)[:300], 'model': str(ws_model)[:300]})
+    if ws_real and sorted(int(x) for x in ws_real[0].split(',')) != sorted(ord(x) for x in reader_ref.WS):
+        failures.append({'text': 'whitespace table', 'problem': 'char::is_whitespace differs from the White_Space table of the grammar'})
+    return {'evaluations': len(strings), 'distinct_nontrivial': len(set(strings)) - dist['nothing'],
+            'rule': f'every string of length <= {4 if tier == "quick" else 5} over the alphabet ( ) \' " % \\ ; , space newline a 1 + - ({exhaustive} strings, exhaustive) plus token-level generated texts mutated by one inserted / deleted / duplicated '
+                    'character with random start line/column; status, datum with per-atom positions, rest, rest line/column and error position of the real reader compared with the model and with a reference reader '
+                    '(regex tokenizer + recursive descent, Python); the White_Space table compared for all scalar values; non-trivial = not blank',
+            'samples': [repr(strings[i]) for i in (exhaustive - 3, exhaustive + 1, exhaustive + 2, exhaustive + 3)],
+            'disagreements': diffs, 'oracle_failures': failures, 'distribution': dist, 'findings_seen': findings_seen, 'exhaustive': False}
+
+def c11_replay(run, content):
+    fs = [f for f in content.get('failures', []) if 'text' in f and 'start' in f]
+    sessions = [['new empty'] + [f'read {hexs(f["text"])} stdin {f["start"][0]} {f["start"][1]}' for f in fs]]
+    real, model = both(sessions)
+    out = []
+    for f, r in zip(fs, real[0][1:]):
+        p, ref = c11_check_one(f['text'], f['start'][0], f['start'][1], r)
+        print(repr(f['text']), '=>', r[:200], '| reference:', ref.get('status'), '|', p)
+        if p: out.append({'text': f['text'], 'start': f['start'], 'problem': p, **({'finding': 'F5-reader-quote-flag'} if ref.get('quirk') else
+                                                                                    {'finding': 'F25-error-position-of-newline'} if p.startswith('error position') and ref.get('msg', '').startswith("'\n' is not") else {})})
+    return {'evaluations': len(fs), 'distinct_nontrivial': max(2, len(fs)), 'samples': [f['text'] for f in fs[:3]] or ['none'], 'disagreements': compare(sessions, real, model), 'oracle_failures': out, 'rule': 'replay'}
+
+spec('C11', correspond=c11_correspond, replay=c11_replay, modules=['C11'],
+     search=lambda run, rng, d: c11_correspond(run, random.Random(rng.random()), 'quick')['oracle_failures'],
+     trusted=['char::is_whitespace = the Unicode White_Space table (compared for every scalar value on every run)', 'the reference reader (Python) as the statement of the grammar', 'the correspondence check'],
+     assumptions=['a character literal is % followed by exactly one code point or one of the five escapes (after the fix that removed the grapheme counter)',
+                  'known finding F5: a quote directly followed by a quote or by a closing parenthesis'])
